@@ -240,10 +240,13 @@ def api_case(rec, pa, pb, bi, where, layout, chunk, tkind, seed, only=False, pre
     try:
         with warnings.catch_warnings():
             warnings.simplefilter("ignore")
+            # bypass_checks is documented for the linear / log methods only; given with the conservative method (every third
+            # case) it changes nothing
+            bkw = dict(bypass_checks=True) if (pa + pb + bi) % 3 == 0 else {}
             if prec == "tdnone":
-                r = g.transform(da, "Z", target, method="conservative")
+                r = g.transform(da, "Z", target, method="conservative", **bkw)
             else:
-                r = g.transform(da, "Z", target, target_data=td, method="conservative")
+                r = g.transform(da, "Z", target, target_data=td, method="conservative", **bkw)
             v = r.compute() if chunk else r
     except Exception as e:
         rec.violation("api", "raise:" + exc_sig(e), case, "array", f"{type(e).__name__}: {e}"[:200])
